@@ -107,7 +107,8 @@ Definition p_cancel (s : pstate) (id : nat) : pstate :=
   | Some m =>
     let e := match r_guard m with Some pid => unpatch_entry s pid | None => entry s end in
     {| entry := e; phs := phs s; table := table s; precs := precs s;
-       mkrs := set_nth id (mkrs s) {| r_target := r_target m; r_guard := r_guard m; r_has_when := false; r_canceled := true; r_origin := None |};
+       (* a guard that has been used to restore is dropped: a second Cancel / Reset must not restore again *)
+       mkrs := set_nth id (mkrs s) {| r_target := r_target m; r_guard := None; r_has_when := false; r_canceled := true; r_origin := None |};
        pcache := pcache s; phandles := phandles s |}
   | None => s
   end.
